@@ -64,7 +64,7 @@ theorem serTokensAt_ok_iff (henv : envOK env = true) (ugt : Bool) (t : Tree) (q 
     exceptIsOk (serTokensAt env ugt t q) = true ↔ namesWritable env t q = some true := by
   have he := envFacts_of_envOK henv
   obtain ⟨rest, hchain⟩ := ancestorsOrSelf_of_at? t q _ hat
-  have hsub : sub.allNodes (nodeOK env) = true := allNodes_at? q t _ hok hat
+  have hsub : sub.allNodes (nodeOK env) = true := ist_allNodes_at? q t _ hok hat
   have hpi := nodeOK_piOK he _ hsub
   simp only [serTokensAt, hat, namespacesInScope, hchain, Option.map_some, namesWritable,
     namesWritableChain_eq, Option.some.injEq]
